@@ -173,7 +173,7 @@ def compare_path(cfg, path, nodes, mres, mism):
         for j in range(i + 1, len(sts)):
             a, b = sts[i], sts[j]
             for nm, ma, mb, key, both in (('params', a[0], b[0], 'params', True), ('rng', a[4], b[4], 'rng', True),
-                                          ('buffers', (a[1], a[3] if mps else 0), (b[1], b[3] if mps else 0), 'buffers', j == i + 1),
+                                          ('buffers', (a[1], a[3] if mps else 0), (b[1], b[3] if mps else 0), 'buffers', j == i + 1 and a[1] != b[1]),
                                           ('theta', a[3], b[3], 'theta', j == i + 1 and b[3][0] in ('TGumbel', 'TSoft') and cfg['method'] != 'PIT')):
                 n += 1
                 ie = fps[i][key] == fps[j][key]
